@@ -126,6 +126,16 @@ class FunctionInfo:
                 decos.append(d.id)
             elif isinstance(d, ast.Attribute):
                 decos.append(d.attr)
+        # a decorator other than the descriptor ones wraps the function in something the VC generator does not model
+        # (caches, registries, wrappers with state): such a function is outside the fragment
+        known = {"staticmethod", "classmethod", "property", "abstractproperty", "setter", "getter", "deleter",
+                 "abstractmethod", "override", "final", "overload"}
+        self.foreign_decorators = []
+        for d in node.decorator_list:
+            base = d.func if isinstance(d, ast.Call) else d
+            nm = base.id if isinstance(base, ast.Name) else (base.attr if isinstance(base, ast.Attribute) else "?")
+            if nm not in known or isinstance(d, ast.Call):
+                self.foreign_decorators.append(ast.unparse(d))
         self.kind = "function"
         if "staticmethod" in decos:
             self.kind = "static"
